@@ -25,3 +25,7 @@ From Bio.Model Require Sam.
 Definition go_hex_encode (l : list N) : list N := Sam.hex_encode l.
 Definition go_hex_decode (s : list N) : list N * bool :=
   match Sam.hex_decode s with Some l => (l, false) | None => ([], true) end.
+
+(* strconv.ParseFloat through the float oracle (Base.parseF): a float is its canonical text *)
+Definition go_parse_float (o : foracle) (s : list N) : F * bool :=
+  match parseF o s with Some x => (x, false) | None => ([48%N], true) end.
